@@ -330,8 +330,12 @@ class MessagePackRpc(MessagePackDocument):
                 # about the mandatory ones).
                 doc = []
 
-            ctx.in_object = self._doc_to_object(ctx, body_class, doc,
+            try:
+                ctx.in_object = self._doc_to_object(ctx, body_class, doc,
                                                                  self.validator)
+            except RecursionError:
+                # see HierDictDocument.deserialize
+                raise ValidationError(None, "The document is nested too deeply")
 
         else:
             ctx.in_object = []
